@@ -604,6 +604,13 @@ def run(chk):
         run_batch(chk, bcases, via_binary=True)
     run_ir_batch(chk, 150 if chk.tier == 'quick' else 3000)
     run_odd_keys(chk, 60 if chk.tier == 'quick' else 1200)
+    if chk.cli_ok:
+        # folder-output mode against the same crates generated alone (lib/multi.py): keys and bindings must not depend on what
+        # another crate of the run contains (seeded C01_g)
+        import multi
+        nw = 12 if chk.tier == 'quick' else 150
+        wss = [[make_case(chk.rng, chk.rng.getrandbits(32))[1] for _ in range(chk.rng.choice([2, 3, 3]))] for _ in range(nw)]
+        multi.independent_crates(chk, wss, multi.facet_keys, 'keys and their bindings (C01)')
     report_soft(chk)
     if chk.tier == 'thorough':
         serde_ground_truth(chk, seeds[:1500])
